@@ -53,6 +53,12 @@ func TestCheck(t *testing.T) {
 	defer rep.Write()
 	shard, of := mc.ShardFromEnv()
 	job := 0
+	for i, probeOn := range []bool{true, false} {
+		if (12+i)%of == shard {
+			verboseFlag = i == 1
+			runUpgradeGroup(t, rep, probeOn)
+		}
+	}
 	for _, probeOn := range []bool{true, false} {
 		for _, proto := range []string{"h1", "h2"} {
 			for _, method := range []string{"GET", "HEAD", "POST"} {
